@@ -8,8 +8,9 @@ THEOREMS = [
     "C27_sha256_refuted", "C27_ita_refuted", "C27_filemode_refuted", "C27_staged_delete_refuted",
     "C27_typechange_refuted", "C27_samestat_refuted", "C27_info_exclude_refuted",
     "C27_shortcut_sound_partial", "C27_shortcut_sound_refuted",
+    "C27_ts_compare", "C27_shortcut_sound_ns_partial", "C27_shortcut_seconds_refuted",
 ]
-MODEL_FILES = ["Status.v"]
+MODEL_FILES = ["Status.v", "StatTime.v"]
 MODELLED = ("worktree_status.go Worktree.status (the fold of the two change lists into the Status map, nameFromAction, "
             "Untracked -> Unmodified promotion), diffTreeIsEquals over the noder hashes of utils/merkletrie/index/node.go "
             "(Hash, upholdExecutableBit) and utils/merkletrie/filesystem/node.go (calculateHash with format.SHA1, "
@@ -34,7 +35,31 @@ RULE = ("case = flattened (HEAD, index, worktree) maps over a 23-path universe w
         "between two of the maps; distinct by content")
 
 MODE = {"f": 0, "x": 1, "l": 2}
-T1 = pg.T0 + 1
+NS = 10 ** 9
+T1 = (pg.T0 + 1) * NS          # model time stamps are nanosecond counts (Model/StatTime.v: ts_ns)
+
+
+def ns(t):
+    return t[0] * NS + t[1]
+
+
+def sof(c):
+    """state of a case, with the effect of its "stamp" step (explicit sub-second time stamps of one tracked file)"""
+    st = pg.state_of(c)
+    sp = c.get("stamp")
+    if sp:
+        m = st["index"][sp["p"]][0]
+        st["wt"][sp["p"]] = (m, bytes.fromhex(sp["c"]), "stamp")
+        st["stamp"] = sp
+    return st
+
+
+# the stamp grid: mtime of the rewritten file relative to the entry's (equal to the nanosecond / same second, later or
+# earlier nanoseconds / another second) x mtime of .git/index relative to the file's
+EMT = (pg.T0 + 7, 500)
+WMTS = [EMT, (EMT[0], 900), (EMT[0], 100), (EMT[0] + 2, 500)]
+IMTS = [lambda w: (w[0], w[1] - 50), lambda w: w, lambda w: (w[0], w[1] + 50), lambda w: (w[0] + 5, 0), lambda w: (w[0] - 3, 0)]
+STAMPS = [(w, f(w)) for w in WMTS for f in IMTS]
 
 
 def model_inputs(st):
@@ -43,19 +68,25 @@ def model_inputs(st):
     def cid(c):
         return cids.setdefault(c, len(cids))
     fmt = 1 if st["fmt"] == "sha256" else 0
-    idxtime = T1 if st["racy"] else T1 + 10 ** 6
+    sp = st.get("stamp")
+    idxtime = T1 if st["racy"] else T1 + 10 ** 6 * NS
+    if sp:
+        idxtime = ns(sp["imt"])
     head = ['("%s", %s, %s)' % (p.encode().hex(), coq_N(MODE[m]), coq_N(cid(c))) for p, (m, c) in sorted(st["head"].items())]
     index = []
     for p, (m, c, f) in sorted(st["index"].items()):
         if f == "ita":
             index.append('("%s", %s, %s, %s, %s, true)' % (p.encode().hex(), coq_N(MODE[m]), coq_N(0), coq_N(0), coq_N(1)))
         else:
-            index.append('("%s", %s, %s, %s, %s, false)' % (p.encode().hex(), coq_N(MODE[m]), coq_N(cid(c)), coq_N(len(c)), coq_N(T1)))
+            emt = ns(sp["emt"]) if (sp and sp["p"] == p) else T1
+            index.append('("%s", %s, %s, %s, %s, false)' % (p.encode().hex(), coq_N(MODE[m]), coq_N(cid(c)), coq_N(len(c)), coq_N(emt)))
     wt = []
     for p, (m, c, t) in sorted(st["wt"].items()):
         s = st["index"].get(p)
         kept = s is not None and s[0] == m and s[1] == c and t == ""
-        mt = T1 if (kept or t == "samestat") else (T1 + 100 if t == "touch" else T1 + 50)
+        mt = T1 if (kept or t == "samestat") else (T1 + 100 * NS if t == "touch" else T1 + 50 * NS)
+        if t == "stamp":
+            mt = ns(sp["wmt"])
         wt.append('("%s", %s, %s, %s, %s, %s, %s)' % (p.encode().hex(), coq_N(MODE[m]), coq_N(cid(c)), coq_N(len(c)), coq_N(mt),
                                                         coq_bool(pg.ignored(st, p, False)), coq_bool(pg.ignored(st, p, True))))
     return "(mk_state %s %s %s %s %s %s)" % (coq_N(fmt), coq_bool(st["filemode"]), coq_N(idxtime),
@@ -76,6 +107,12 @@ def deviation(st, p):
         return "typechange"
     if i is not None and w is not None:
         kept = i[0] == w[0] and i[1] == w[1] and w[2] == ""
+        if w[2] == "stamp":
+            sp = st["stamp"]
+            # same size, mtime restored to the nanosecond, index file newer: the metadata shortcut applies
+            if ns(sp["wmt"]) == ns(sp["emt"]) and ns(sp["wmt"]) < ns(sp["imt"]) and len(i[1]) == len(w[1]) and i[1] != w[1]:
+                return "samestat"
+            return None
         if not st["filemode"] and w[0] == "x":
             return "filemode-false-exec"
         if w[2] == "samestat" and not st["racy"] and i[0] == w[0] and len(i[1]) == len(w[1]):
@@ -119,14 +156,25 @@ class Main(Suite):
                       "wt": {"r": (m, b, "samestat"), "k": ("f", b"keep\n", "")}}
                 c = pg.recipe(st)
                 c["bucket"] = "racy-samestat"
+            if k % 6 == 1:
+                # same-size rewrite of a tracked file with explicit sub-second time stamps (see STAMPS)
+                a, b = rng.choice([(b"11\n", b"22\n"), (b"1\n", b"2\n"), (b"x", b"y"), (b"same\n", b"same\n")])
+                m = rng.choice(["f", "x"])
+                w, i = STAMPS[(k // 6) % len(STAMPS)]
+                st = {"fmt": "sha1", "filemode": True, "racy": False, "exclude": b"", "dirs": [],
+                      "head": {"r": (m, a), "k": ("f", b"keep\n")}, "index": {"r": (m, a, ""), "k": ("f", b"keep\n", "")},
+                      "wt": {"r": (m, a, ""), "k": ("f", b"keep\n", "")}}
+                c = pg.recipe(st)
+                c["stamp"] = {"p": "r", "c": b.hex(), "emt": list(EMT), "wmt": list(w), "imt": list(i)}
+                c["bucket"] = "stamp"
             cases.append(c)
         return cases
 
     def model_expr(self, c):
-        return "c27_run %s" % model_inputs(pg.state_of(c))
+        return "c27_run %s" % model_inputs(sof(c))
 
     def nontrivial(self, c):
-        st = pg.state_of(c)
+        st = sof(c)
         h = {p: v[:2] for p, v in st["head"].items()}
         i = {p: v[:2] for p, v in st["index"].items()}
         w = {p: v[:2] for p, v in st["wt"].items()}
@@ -156,7 +204,7 @@ class Main(Suite):
     def finding_class(self, c, reason, reply):
         if "@@" not in reason:
             return None
-        st = pg.state_of(c)
+        st = sof(c)
         classes = [deviation(st, p) for p in reason.split("@@", 1)[1].split("\x1f")]
         if classes and all(k is not None for k in classes):
             return classes[0]
@@ -164,7 +212,7 @@ class Main(Suite):
 
     def extra(self, ctx, cases, impl, model):
         # C-git: S (Spec/GitStatus) against the git binary
-        exprs = ["c27_git_run %s" % model_inputs(pg.state_of(c)) for c in cases]
+        exprs = ["c27_git_run %s" % model_inputs(sof(c)) for c in cases]
         outs = ctx.coq_eval(self.coq_imports, exprs, chunk=100)
         bad = 0
         sym = {" ": "unmod", "?": "untracked"}
